@@ -10,7 +10,7 @@ from vf.session import make_scratch
 PROPERTY = "C12"
 LEVEL = "exploration"
 RULE = ("values: (i) exhaustive enumeration of all JSON trees with <= 2 nodes (quick) / <= 3 nodes (thorough) over "
-        "an alphabet of 21 boundary scalars (null, booleans, 0, 1, -1, 2**70, -(2**80), 0.5, -0.0, 1e308, 5e-324, "
+        "an alphabet of 23 boundary scalars (null, booleans, 0, 1, -1, 2**70, -(2**80), 2**1024, -(10**400), 0.5, -0.0, 1e308, 5e-324, "
         "empty / escape-heavy / NUL / astral / BMP-extreme strings, unpaired surrogates) and 6 keys (empty, unicode, NUL, dotted for "
         "the non-attribute families, 300 characters); (ii) seeded random trees to depth 8 and ~200 nodes. Each value "
         "is stored through every mutating entry point (constructor data=, item and slice assignment, setdefault, "
@@ -25,7 +25,7 @@ ASSUMPTIONS = [
 ]
 SHARD_TIMEOUT = {"quick": 600, "thorough": 3600}
 
-SCALARS = [None, True, False, 0, 1, -1, 2**70, -(2**80), 0.5, -0.0, 1e308, 5e-324, 1.0,
+SCALARS = [None, True, False, 0, 1, -1, 2**70, -(2**80), 2**1024, -(10**400), 0.5, -0.0, 1e308, 5e-324, 1.0,
            "", "a", "\u0000", "\"\\/\b\f\n\r\t", "\U0001F600\U00010000", "\uffff\ud7ff\ue000",
            # unpaired surrogates: legal in JSON text as \uXXXX escapes (json.loads('"\\ud800"') yields them)
            "\ud800", "x\udfffy"]
